@@ -261,7 +261,7 @@ func (r *renamer) term(t Term, env map[string]string, res map[string]bool) Term 
 	case *Wait:
 		return &Wait{X: r.nm(env, x.X), K: r.term(x.K, env, res)}
 	case *Fwd:
-		return &Fwd{To: r.nmOpt(env, x.To), From: r.nm(env, x.From), T: r.ty(x.T)}
+		return &Fwd{To: r.nmOpt(env, x.To), From: r.nm(env, x.From), T: r.ty(x.T), Pol: x.Pol}
 	case *Split:
 		f := union(r.forbiddenIn(x.K, env, x.X1, x.X2), res)
 		n1 := r.pick(f)
